@@ -272,14 +272,14 @@ uint64_t cntleadzeros(uint64_t size, uint64_t src)
  * - cnttrailzeros(size=32, src=2): 1
  * - cnttrailzeros(size=32, src=0): 32
  */
-unsigned int cnttrailzeros(uint64_t size, uint64_t src)
+uint64_t cnttrailzeros(uint64_t size, uint64_t src)
 {
 	uint64_t i;
 	for (i=0; i<size; i++){
 		if (src & (1ull << i))
-			return (unsigned int)i;
+			return i;
 	}
-	return (unsigned int)size;
+	return size;
 }
 
 
